@@ -5,6 +5,7 @@ import Sheens.Driver.MCrew
 import Sheens.Driver.Timers
 import Sheens.Driver.Expect
 import Sheens.Driver.Tools
+import Sheens.Driver.Compile
 
 /-! `driver`: one JSON op per line in, one JSON verdict line out. -/
 
@@ -20,6 +21,7 @@ def dispatch (j : Json) : Json :=
   | "timers" => Driver.handleTimers j
   | "expect" => Driver.handleExpect j
   | "tools" => Driver.handleTools j
+  | "compile" => Driver.handleCompile j
   | op => Json.mkObj [("error", Json.str ("unknown op " ++ op))]
 
 partial def loop (hin : IO.FS.Stream) (hout : IO.FS.Stream) : IO Unit := do
